@@ -57,10 +57,11 @@ def SrcList.SizesOK : SrcList → Prop
 end
 
 mutual
-/-- no ConcatSource node of the tree saturates a column: at each one the crate's `saturating_add` (fix F16) and the model's
-unbounded addition deliver the same stream (`Src.noSat_normal` discharges this for trees honouring C02 below 2 GiB) -/
+/-- no ConcatSource node of the tree overflows or saturates: at each one the checked stream (every `u32` addition of the
+bookkeeping as a partial operation, the column sum saturating: fix F16) succeeds and is the model's unbounded stream
+(`Src.noSat_normal` discharges this for trees honouring C02 below 2 GiB) -/
 def Src.NoSat (o : Opts) : Src → Prop
-  | .concat cs => cs.NoSats o ∧ Chk.concatStreamS o.final (cs.streams o []).1 = concatStream o.final (cs.streams o []).1
+  | .concat cs => cs.NoSats o ∧ Chk.concatStreamC o.final (cs.streams o []).1 = some (concatStream o.final (cs.streams o []).1)
   | .replace inner _ => inner.NoSat ⟨o.columns, false⟩
   | .cached _ inner => inner.NoSat o
   | _ => True
@@ -112,6 +113,7 @@ theorem Src.streamC_eq : ∀ (s : Src) (o : Opts) (σ : Store), s.NoCached → s
       rw [e1, e3]
       rw [e5] at hsat
       rw [hsat]
+      rfl
   | .replace inner rs, o, σ, hn, h, hs => by
     simp only [Src.NoCached] at hn
     simp only [Src.SizeOK] at h
@@ -137,7 +139,7 @@ end
 mutual
 /-- every ConcatSource node's text is below 2 GiB -/
 def Src.HalfOK : Src → Prop
-  | .concat cs => cs.HalfOKs ∧ 2 * cs.srcs.length < 2 ^ 32
+  | .concat cs => cs.HalfOKs ∧ 2 * cs.srcs.length + 2 < 2 ^ 32
   | .replace inner _ => inner.HalfOK
   | .cached _ inner => inner.HalfOK
   | _ => True
@@ -167,7 +169,7 @@ theorem Src.noSat_normal : ∀ (s : Src) (c : Bool), s.NoCached → s.WF → s.P
     have hnodes := SrcList.nc_nodesL cs hn
     have hpos := SrcList.streams_posOK cs c [] hw hp (by simp [SrcList.idsL, hnodes]) (fun p hp => by rw [hnodes] at hp; cases hp)
     have htl := SrcList.streams_tl cs c []
-    apply Chk.concatStreamS_eq_of_posOK false _ (fun r hr => ⟨hpos r hr, htl r hr⟩)
+    apply Chk.concatStreamC_eq_of_posOK false _ (fun r hr => ⟨hpos r hr, htl r hr⟩)
     rw [Chk.sumText_eq, SrcList.streams_text cs c [] hw]
     exact hh.2
   | .replace inner rs, c, hn, hw, hp, hh => by
